@@ -32,11 +32,13 @@ import RV.Base.SetList
   `__contains__`, `quads`, `__len__`, `contexts`/`graphs`, `graph`/`add_graph`,
   `remove_graph`, `remove_context`, exactly in the order the code performs them,
   including the side effects of argument normalisation:
-  a `Graph` *object* passed where a graph is expected makes `_graph` call `get_graph`
-  (for a Dataset this consumes `Dataset.contexts()`, which registers the default graph
-  when the store does not list it) and then copy the object's triples into the graph of
-  the same name (`__iadd__`).  For a view on the same store that copy re-adds what is
-  there; for a graph living in another store it merges that graph's triples.
+  a `Graph` *object of another store* passed where a graph is expected makes `_graph`
+  call `get_graph` (for a Dataset this consumes `Dataset.contexts()`, which registers the
+  default graph when the store does not list it) and then copy the object's triples into
+  the graph of the same name (`__iadd__`): that graph's triples are merged.  A `Graph`
+  object on the *same* store is returned as is (`elif c.store is self.store: return c`,
+  repair "ConjunctiveGraph/Dataset no longer copy a graph of the same store into itself
+  on reads"): no scan, no registration of the default graph, no copy.
 -/
 namespace RV.C02
 
@@ -146,7 +148,7 @@ def touch (cfg : Cfg) (m : Mem) : Mem :=
 def graphEff (cfg : Cfg) (m : Mem) : GArg → Mem
   | .none => m
   | .ident _ => m
-  | .view k => (touch cfg m).addAll k (selTriples TPat.all (some k) (touch cfg m).qs)
+  | .view _ => m      -- `c.store is self.store`: returned as is (no `get_graph` scan, no copy)
   | .foreign k ts => (touch cfg m).addAll k ts
 
 /-- a triple, a quad, or `None` as accepted by `_spoc` -/
